@@ -311,9 +311,6 @@ func (robustSuite) Gen(r *Rng, i int, tier string) any {
 		add("hostile-paths", b)
 	}
 	n := 60
-	if len(c.Inputs) > 0 {
-		n = 12 // leave room for the watchdog of the first input inside the per-case limit
-	}
 	for k := 0; k < n; k++ {
 		switch r.Intn(14) {
 		case 0:
@@ -372,27 +369,29 @@ func (robustSuite) Gen(r *Rng, i int, tier string) any {
 			add(rd, robustMutate(r, robustApkSeed(), false))
 		default:
 			// hostile tar entry names through the lazy in-memory file system and the installed-db writer
-			if i > len(robustLinkApks)+len(robustLinkPaths) && !robustHasBuild(c) && r.Chance(12) {
-				// hostile link entries / dotted names through a whole build (at most one per case, see robustLinkApks)
-				files := []SFile{{Path: "a", Type: "dir", Mode: 0o755}, {Path: "a/b", Type: "dir", Mode: 0o755}, {Path: "a/f", Type: "file", Mode: 0o644, Content: "x"}}
-				for k := r.Range(1, 3); k > 0; k-- {
-					files = append(files, SFile{Path: Pick(r, []string{"a/x", "a/b/x", "a/..", "a/b/.", "a/b/..", "y", "a/b/y"}), Type: Pick(r, []string{"hardlink", "hardlink", "symlink", "file"}),
-						Mode: 0o644, Link: Pick(r, []string{"a", "a/b", ".", "a/f", "/a", "a/b/x", "missing"}), Content: "z"})
-				}
-				b, _ := json.Marshal(files)
-				add("hostile-apk", b)
-				break
-			}
-			if i > len(robustLinkApks)+len(robustLinkPaths) && !robustHasBuild(c) && r.Chance(8) {
-				paths := []types.PathMutation{{Path: Pick(r, []string{"/usr/x", "/usr/lib/x", "/usr/..", "/usr/lib/.", "/x"}), Type: Pick(r, []string{"hardlink", "hardlink", "symlink", "empty-file"}),
-					Source: Pick(r, []string{"/usr", "/", "/usr/lib", "/usr/f", "usr", "/missing"})},
-					{Path: Pick(r, []string{"/usr", "/", "/usr/lib"}), Type: "directory", Permissions: 0o755, Recursive: true}}
-				b, _ := json.Marshal(paths)
-				add("hostile-paths", b)
-				break
-			}
 			names := []string{Pick(r, robustHostileNames), Pick(r, robustHostileNames)}
 			add(Pick(r, []string{"tarfs-names", "idb-names"}), []byte(strings.Join(names, "\x01")))
+			// in addition (drawn from a side stream, so that the inputs above are the ones this suite always
+			// generated): hostile link entries / dotted names / hardlink mutations through a whole build, at
+			// most one per case (see robustLinkApks)
+			r2 := &Rng{r.s ^ 0x6c696e6b64697273}
+			if i > len(robustLinkApks)+len(robustLinkPaths) && !robustHasBuild(c) && r2.Chance(20) {
+				if r2.Chance(60) {
+					files := []SFile{{Path: "a", Type: "dir", Mode: 0o755}, {Path: "a/b", Type: "dir", Mode: 0o755}, {Path: "a/f", Type: "file", Mode: 0o644, Content: "x"}}
+					for k := r2.Range(1, 3); k > 0; k-- {
+						files = append(files, SFile{Path: Pick(r2, []string{"a/x", "a/b/x", "a/..", "a/b/.", "a/b/..", "y", "a/b/y"}), Type: Pick(r2, []string{"hardlink", "hardlink", "symlink", "file"}),
+							Mode: 0o644, Link: Pick(r2, []string{"a", "a/b", ".", "a/f", "/a", "a/b/x", "missing"}), Content: "z"})
+					}
+					b, _ := json.Marshal(files)
+					add("hostile-apk", b)
+				} else {
+					paths := []types.PathMutation{{Path: Pick(r2, []string{"/usr/x", "/usr/lib/x", "/usr/..", "/usr/lib/.", "/x"}), Type: Pick(r2, []string{"hardlink", "hardlink", "symlink", "empty-file"}),
+						Source: Pick(r2, []string{"/usr", "/", "/usr/lib", "/usr/f", "usr", "/missing"})},
+						{Path: Pick(r2, []string{"/usr", "/", "/usr/lib"}), Type: "directory", Permissions: 0o755, Recursive: true}}
+					b, _ := json.Marshal(paths)
+					add("hostile-paths", b)
+				}
+			}
 		}
 	}
 	return c
